@@ -41,7 +41,8 @@ EOM_EXT = [
     Pattern("self.hydrodynamics.Tnucl", "Tnucl", "R"),
     Pattern("self.particles", "particles", "list particle"),
 ]
-EOM_ORACLES = [("minimize_bounded", "(R -> R) -> R -> R -> R"),
+EOM_ORACLES = [# f, bounds, xatol (absolute tolerance on the position)
+               ("minimize_bounded", "(R -> R) -> R -> R -> R -> R"),
                # f, bracket ends, xtol (absolute), rtol (relative)
                ("root_bracketed", "(R -> R) -> R -> R -> R -> R -> R")]
 HYDRO_EXT = [
@@ -131,14 +132,21 @@ class PlasmaTranslator(pyrx.ClassTranslator):
                 self.expr(kw["xtol"], env), self.expr(kw["rtol"], env))
         if _is_mod_call(node, ("scipy.optimize", "optimize"), "minimize_scalar"):
             kw = {k.arg: k.value for k in node.keywords}
-            if len(node.args) != 1 or set(kw) != {"method", "bounds"} or \
+            opt = kw.get("options")
+            if len(node.args) != 1 or set(kw) != {"method", "bounds", "options"} or \
                     const_str(kw["method"]) != "Bounded" or not isinstance(
                         kw["bounds"], (ast.Tuple, ast.List)) or \
-                    len(kw["bounds"].elts) != 2:
-                raise TranslateError("minimize_scalar shape (line %d)" % node.lineno)
+                    len(kw["bounds"].elts) != 2 or not (
+                        isinstance(opt, ast.Dict) and len(opt.keys) == 1 and
+                        const_str(opt.keys[0]) == "xatol"):
+                raise TranslateError("minimize_scalar shape (line %d): method='Bounded', "
+                                     "bounds=[a, b], options={'xatol': e} are modelled" %
+                                     node.lineno)
             a, b = kw["bounds"].elts
-            return "(minimize_bounded e %s %s %s)" % (
-                self.expr(node.args[0], env), self.expr(a, env), self.expr(b, env))
+            # the stopping tolerance is part of the model: it is handed to the oracle
+            return "(minimize_bounded e %s %s %s %s)" % (
+                self.expr(node.args[0], env), self.expr(a, env), self.expr(b, env),
+                self.expr(opt.values[0], env))
         return super().expr(node, env)
 
     def call(self, node, env):
